@@ -82,6 +82,7 @@ type sysRemote struct {
 	EchoLevel     func(ctx context.Context, tag int, l Level) (Level, error)      // a defined string type with its own text encoding
 	EchoNamed     func(ctx context.Context, tag int, c Count, n Name) (Count, error)
 	Two           func(ctx context.Context, tag int, f cbI, g cbI) (string, error)
+	IterDerived   func(ctx context.Context, tag int, cb cbT) (string, error)
 	Sub           struct {
 		Deep struct {
 			Ping func(ctx context.Context, tag int) (int, error)
@@ -583,6 +584,36 @@ func (l *sysLocal) EchoNamed(ctx context.Context, tag int, c Count, n Name) (Cou
 	return c + Count(len(n)), nil
 }
 
+// IterDerived invokes its callable three times: B with the handler's context and A with a context derived
+// for that one invocation, both in flight together; A's context is then cancelled (only A must be affected);
+// C afterwards releases the caller's function for all of them.
+func (l *sysLocal) IterDerived(ctx context.Context, tag int, cb cbT) (string, error) {
+	l.inv(ctx, "IterDerived", tag, nil)
+	type res struct {
+		v   string
+		err error
+	}
+	bch, ach := make(chan res, 1), make(chan res, 1)
+	go func() { v, err := cb(ctx, 0, "B", nil, false); bch <- res{v, err} }()
+	actx, acancel := context.WithCancel(ctx)
+	defer acancel()
+	go func() { v, err := cb(actx, 1, "A", nil, false); ach <- res{v, err} }()
+	time.Sleep(30 * time.Millisecond)
+	acancel()
+	get := func(ch chan res) res {
+		select {
+		case r := <-ch:
+			return r
+		case <-time.After(3 * time.Second):
+			return res{"", errors.New("STUCK")}
+		}
+	}
+	a := get(ach)
+	cv, cerr := cb(ctx, 2, "C", nil, false)
+	b := get(bch)
+	return fmt.Sprintf("A=%s/%s;B=%s/%s;C=%s/%s", a.v, errText(a.err), b.v, errText(b.err), cv, errText(cerr)), nil
+}
+
 // Two takes two closures and invokes them alternately: each must reach its own function
 func (l *sysLocal) Two(ctx context.Context, tag int, f cbI, g cbI) (string, error) {
 	l.inv(ctx, "Two", tag, nil)
@@ -849,6 +880,8 @@ type SysNode[T any] struct {
 	Name  string
 	Reg   *rpc.Registry[sysRemote, T]
 	Local *sysLocal
+	// when set, every link of this node is given this one LinkHooks value (reusing it is legal)
+	SharedHooks *rpc.LinkHooks
 }
 
 func NewSysNode[T any](w *sysWorld, name string) *SysNode[T] {
@@ -919,6 +952,12 @@ func ConnectCtx[T any](parentA context.Context, w *sysWorld, a, b *SysNode[T], c
 	ctxB, cb := context.WithCancel(context.Background())
 	l.CancelA, l.CancelB = ca, cb
 	hooks := func(node string) *rpc.LinkHooks {
+		if node == a.Name && a.SharedHooks != nil {
+			return a.SharedHooks
+		}
+		if node == b.Name && b.SharedHooks != nil {
+			return b.SharedHooks
+		}
 		return &rpc.LinkHooks{
 			OnClientConnect:    func(id string) { w.log(SysEvent{Node: node, Kind: "hook", Method: "link-connect", Remote: id}) },
 			OnClientDisconnect: func(id string) { w.log(SysEvent{Node: node, Kind: "hook", Method: "link-disconnect", Remote: id}) },
